@@ -233,10 +233,12 @@ Definition dec_enum (ds : list (M value)) : M value :=
   r <- dec_array ;;
   match r with
   | Some 2 => i <- dec_u32 ;;
-              match nth_error ds (N.to_nat i) with
-              | Some d => x <- d ;; ret (VVar i x)
-              | None => fail (UnknownVariant i)
-              end
+              if i <? len ds then                       (* (the guard keeps N.to_nat small in the extracted code) *)
+                match nth_error ds (N.to_nat i) with
+                | Some d => x <- d ;; ret (VVar i x)
+                | None => fail (UnknownVariant i)
+                end
+              else fail (UnknownVariant i)
   | _ => fail Message
   end.
 
